@@ -30,8 +30,34 @@ def band : P String := do
   let parts := [wRes Wire.wr (Band.get a i j)] ++ run a ++ run a2 ++ ar.map (wRes wBand) ++ extra.map (wRes wBand)
   pure (" ".intercalate parts)
 
+/-- history of edits of one banded matrix; after every step the whole object and the product with the ones vector -/
+def bandHist : P String := do
+  let n ← pNat; let m1 ← pNat; let m2 ← pNat
+  let x0 : K ← Wire.rd
+  let nops ← pNat
+  let mut b : Band K := Band.new n m1 m2 x0
+  let mut out := wBand b
+  for _ in [0:nops] do
+    let op ← tok
+    let r : Res (Band K) ← (match op with
+      | "resize" => do let a ← pNat; let c ← pNat; let d ← pNat; pure (Band.resize b a c d)
+      | "set" => do let i ← pNat; let j ← pNat; let x : K ← Wire.rd; pure (Band.set b i j x)
+      | "fill" => do let x : K ← Wire.rd; pure (Band.fill b x)
+      | "fillband" => do let k ← pInt; let x : K ← Wire.rd; pure (Band.fillBand b k x)
+      | _ => throw s!"unknown banded op {op}" : P (Res (Band K)))
+    let o : String := match r with
+      | .ok _ => "ok"
+      | .error e => "!" ++ toString e
+    b := match r with
+      | .ok b' => b'
+      | .error _ => b
+    out := out ++ s!" ; {op} {o} | {wBand b}"
+    out := out ++ " | " ++ wRes wArr (Band.mulVec b (Array.replicate b.n (1 : K)))
+  pure out
+
 def exec (op : String) : P (Option String) := do
   match op with
+  | "band_hist" => let tag ← tok; some <$> byTag tag (fun K _ => bandHist (K := K))
   | "band" => let tag ← tok; some <$> byTag tag (fun K _ => band (K := K))
   | _ => pure none
 end DrvBand
